@@ -12,7 +12,12 @@ type SplitTracker struct {
 	knownSplits         *ds.SortedMap[string, SourceSplitterShard]
 	assignedSplits      map[string]struct{}
 	LastAssignedSplitID string // The last split ID that was marked assigned.
-	mu                  sync.Mutex
+
+	// The highest split ID that was tracked so far. Discovery continues after
+	// it: a finished split is forgotten, listing it again would make it look
+	// like a new split and hand it out a second time.
+	lastDiscoveredSplitID string
+	mu                    sync.Mutex
 }
 
 func NewSplitTracker() *SplitTracker {
@@ -33,6 +38,15 @@ func (st *SplitTracker) LoadSplits(shards []SourceSplitterShard, lastAssignedSpl
 	}
 
 	st.LastAssignedSplitID = lastAssignedSplitID
+	st.lastDiscoveredSplitID = lastAssignedSplitID
+}
+
+// DiscoveryCursor is the split ID after which new splits are looked for.
+func (st *SplitTracker) DiscoveryCursor() string {
+	st.mu.Lock()
+	defer st.mu.Unlock()
+
+	return st.lastDiscoveredSplitID
 }
 
 // AddSplits starts tracking the given kinesis shards.
@@ -42,6 +56,7 @@ func (st *SplitTracker) AddSplits(shards []SourceSplitterShard) {
 
 	for _, shard := range shards {
 		st.knownSplits.Set(shard.ShardID, shard)
+		st.lastDiscoveredSplitID = max(st.lastDiscoveredSplitID, shard.ShardID)
 	}
 }
 
